@@ -138,7 +138,7 @@ def mesh_histories(tier, rng, recs, n0):
             pts *= np.array([rng.choice((1.0, 6.0)), 1.0, rng.choice((1.0, 0.3))])
         else:
             # ringed spindle: strictly convex, graph diameter ~ number of rings (long hill-climbing walks)
-            rings, per = rng.choice((60, 150, 300)), rng.choice((3, 6))
+            rings, per = (300 if b == 1 else rng.choice((60, 150, 300))), rng.choice((3, 6))       # the first spindle always has 300 rings
             hl, rad = rng.choice((5.0, 10.0, 40.0)), rng.choice((0.5, 1.0))
             pl = [[0.0, 0.0, -hl], [0.0, 0.0, hl]]
             for kk in range(1, rings + 1):
@@ -158,9 +158,12 @@ def mesh_histories(tier, rng, recs, n0):
         T = np.eye(4); T[:3, :3] = R; T[:3, 3] = tw
         mesh = C.MeshGraph(np.ascontiguousarray(T), Vb, tri)
         d = np.array([rng.gauss(0, 1) for _ in range(3)])
+        far = Vb[int(np.argmax(np.linalg.norm(Vb, axis=1)))]          # the longest half axis of the mesh (mesh frame)
         for q in range(30 if tier == "quick" else 100):
             mode = rng.choice(("anti", "near", "rand", "axis"))
-            if mode == "anti":
+            if q < 2:
+                d = R @ (far if q == 0 else -far)          # from one end of the mesh to the other: the longest walk of the graph
+            elif mode == "anti":
                 d = -d
             elif mode == "near":
                 d = d + 0.05 * np.array([rng.gauss(0, 1) for _ in range(3)])
